@@ -136,7 +136,7 @@ def kernel_object(task, bodies, enums, structs):
     if body is None:
         task.result["inconclusive"].append("eval_object not found in the MIR dump")
         return
-    names = ["x", "y"]
+    names = ["y", "x"]   # declared in an order that is not the alphabetical one
     for nslots in (0, 1, 2):
         for with_method in (False, True):
             ex = mirx.Executor(bodies, enums, structs)
@@ -219,6 +219,68 @@ def kernel_object(task, bodies, enums, structs):
                         "reproduced": any(line != expected for line in observed.values()), "replay_bin": "vmstep", "replay_argv": argv, "expected": expected, "observed": observed}
 
             task.check_paths("eval_object", "class of %d slot(s)%s" % (nslots, " and a method" if with_method else ""), ex, b.constraints, outcomes, judge, describe)
+
+
+# ---------------------------------------------------------------------------------------------------------------
+# the size charged for an object depends on its shape only: classes that differ only in how their members are
+# called (same member kinds, same name lengths) are charged the same (z3, with size_of::<T>() as positive constants)
+
+def kernel_object_size(task, bodies, enums, structs):
+    body = find(bodies, "eval_object")
+    if body is None:
+        return
+    variants = [("y", "x", "m"), ("x", "y", "m"), ("m", "x", "m"), ("a", "b", "c")]   # the third names a field like the method
+    sizes = []
+    axioms = []
+    for names in variants:
+        ex = mirx.Executor(bodies, enums, structs)
+        store = {}
+        b = Builder(ex, store, structs, enums)
+        slot = lambda i: Enum("ProgramObject", PO.index("Slot"), {PO.index("Slot"): [b.new(b.cpi(i))]})
+        klass = Enum("ProgramObject", PO.index("Class"), {PO.index("Class"): [b.new(b.vec([b.cpi(1), b.cpi(2), b.cpi(3)]))]})
+        consts = [klass, slot(4), slot(5), b.po_method(6, 2, 0, 3, 1)] + [b.po_string(n) for n in names]
+        program = b.program(consts, CODE_LEN)
+        state = b.state([b.pointer_const(K_NULL)] * 3, [b.frame(None, [])], BV(z3.BitVecVal(0, 32), 32, False), [])
+        state_cell = b.new(state)
+        try:
+            outcomes = [o for o in ex.run(body, [Ref(b.new(program)), Ref(state_cell), Ref(b.new(b.cpi(0)))], b.constraints, store)]
+        except (mirx.Unsupported, KeyError, AttributeError, TypeError, IndexError) as e:
+            task.result["inconclusive"].append("eval_object size (members %s): MIR construct outside the executor: %r; opaque calls: %s" % (names, e, sorted(ex.unmodelled)))
+            return
+        oks = [o for o in outcomes if o.kind == "return" and o.value.disc == 0]
+        if len(oks) != 1 or len(outcomes) != 1:
+            task.result["inconclusive"].append("eval_object size (members %s): %d outcomes, one successful creation expected" % (names, len(outcomes)))
+            return
+        _, _, size, _ = post(oks[0].store, state_cell, structs)
+        sizes.append(size.t)
+        axioms = list(ex.axioms) + list(oks[0].pc)
+        task.result["queries"] += ex.queries
+        task.result["solver_s"] += ex.solver_seconds
+    for k in range(1, len(variants)):
+        s = z3.Solver()
+        s.set("timeout", 120000)
+        s.add(*axioms)
+        s.add(sizes[0] != sizes[k])
+        t1 = time.time()
+        r = s.check()
+        task.result["solver_s"] += time.time() - t1
+        task.result["queries"] += 1
+        if r == z3.unsat:
+            task.result["discharged"] += 1
+            continue
+        what = "object size: classes with members %s and %s (same kinds, same name lengths) are charged differently" % (variants[0], variants[k])
+        if r != z3.sat:
+            task.result["inconclusive"].append(what + " (z3 answered %s)" % r)
+            continue
+        a, c = native(["object-size"] + list(variants[0])), native(["object-size"] + list(variants[k]))
+        reproduced = any(a[p] != c[p] for p in a)
+        rec = {"id": "object_size_%d" % k, "what": what + " (natively: %s vs %s)" % (a, c), "reproduced": reproduced, "replay_bin": "vmstep",
+               "replay_argv": ["object-size"] + list(variants[k]), "expected": str(a), "observed": str(c)}
+        if reproduced:
+            task.result["violations"].append(rec)
+        else:
+            task.result["inconclusive"].append(what + " — not reproduced natively (%s vs %s)" % (a, c))
+    task.result["kernels"].append({"kernel": "eval_object size", "shape": "two fields and a method, 4 namings", "paths": len(variants)})
 
 
 # ---------------------------------------------------------------------------------------------------------------
@@ -324,11 +386,13 @@ def main():
         task.result["inconclusive"].append("MIR dump / parse failed: %s" % str(e)[-600:])
         print(json.dumps(task.result))
         return
-    which = sys.argv[1:] or ["array", "object", "fields"]
+    which = sys.argv[1:] or ["array", "object", "size", "fields"]
     if "array" in which:
         kernel_array(task, bodies, enums, structs)
     if "object" in which:
         kernel_object(task, bodies, enums, structs)
+    if "size" in which:
+        kernel_object_size(task, bodies, enums, structs)
     if "fields" in which:
         kernel_fields(task, bodies, enums, structs)
     r = task.result
